@@ -263,7 +263,7 @@ def gen_script(ctx, f, depth, recv_cls=None, top=False):
             acts.append({"a": "mut", "p": rng.choice(names), "v": V.gen_atom(rng, dict(ctx.kn, tw_p=0), ctx.classes),
                          "key": rng.choice([["s", "mk"], ["s", "k1"], ["i", 9], ["s", "x"], ["n"]]),
                          # replace an existing item (the container keeps its length) instead of adding one
-                         "rep": rng.random() < 0.5})
+                         "rep": rng.choice([0, 1, 1, 2])})   # 2: rename a dict key (size unchanged)
             continue
         if body == "agen" and r < 0.6:
             if r < 0.35:
@@ -273,6 +273,15 @@ def gen_script(ctx, f, depth, recv_cls=None, top=False):
             if names and ctx.kn.get("rebind", True) and rng.random() < 0.3:
                 acts.append({"a": "rebind", "p": rng.choice(names), "v": V.gen_value(rng, ctx.kn, ctx.classes)})
             continue
+        if body == "gen" and depth > 0 and ctx.kn.get("yield_from") and rng.random() < 0.18:
+            t = pick_target(ctx, want_body=("gen",))
+            if t is not None:
+                g, recv = t
+                args, kwargs = gen_args(ctx, g, g["kind"] in ("method", "classmethod"))
+                rc = (recv or {}).get("inst") or (recv or {}).get("cls")
+                acts.append({"a": "yieldfrom", "fid": g["fid"], "recv": recv, "args": args, "kwargs": kwargs,
+                             "script": gen_script(ctx, g, depth - 1, recv_cls=rc), "catch": rng.random() < 0.5})
+                continue
         if body == "gen" and r < 0.45:
             acts.append({"a": "yield", "v": V.gen_value(rng, ctx.kn, ctx.classes), "catch": rng.random() < 0.3})
             if names and ctx.kn.get("rebind", True) and rng.random() < 0.4:
@@ -358,6 +367,7 @@ class Mat:
         self.inner_handles = []
         self.aio_stats = []
         self.shared = {}
+        self.notes = {}
 
     def val(self, spec):
         return V.build(spec, self.lp.classes, self.tw, self.shared)
@@ -432,8 +442,20 @@ class Mat:
                 out.append((17,))
             elif k == "retp":
                 out.append((18, a["p"]))
+            elif k == "yieldfrom":
+                out.append((20, self.callee(a), tuple(self.val(v) for v in a["args"]), {n: self.val(v) for n, v in a["kwargs"].items()},
+                            self.script(a["script"]), bool(a.get("catch"))))
+            elif k == "pyreset":
+                # the program switches profiling off itself (a section profiler ending with sys.setprofile(None)); top level only
+                def _reset(_notes=self.notes):
+                    import sys as _sys
+
+                    _sys.setprofile(None)
+                    _notes["reset_at"] = len(rt.J)
+
+                out.append((16, _reset))
             elif k == "mut":
-                out.append((19, a["p"], self.val(a["v"]), self.val(a["key"]), bool(a.get("rep"))))
+                out.append((19, a["p"], self.val(a["v"]), self.val(a["key"]), int(a.get("rep") or 0)))
             elif k == "await":
                 out.append((13,))
             elif k == "awaitcall":
